@@ -271,6 +271,10 @@ class Engine:
         for s, c in self.str_consts.items():
             ax.append(TRUTHY(c) == z3.BoolVal(len(s) > 0))
             ax.append(c != NONE_U)
+            # a literal of the program text is not a freshly generated
+            # (uuid-bearing) name (A-STD)
+            from .models import FRESHNAME as _FN
+            ax.append(z3.Not(_FN(c)))
             if s and "/" not in s and s not in ("..", ".") and \
                     not s.startswith(("b:", "float:")):
                 # a plain file / directory name used as a path component
@@ -557,6 +561,13 @@ class Engine:
 
     def _store(self, st, key, shape, r, v):
         if shape.startswith("list:"):
+            if isinstance(v, VTuple):
+                # a tuple literal stored into a sequence field (pydantic
+                # accepts any sequence for tuple[...] / list[...] fields)
+                lst = self.empty_list(st, shape[5:])
+                for it in v.items:
+                    lst = self.list_append(st, lst, it)
+                v = lst
             if not isinstance(v, VList):
                 raise Unsupported(f"store non-list into {key}")
             es = shape[5:]
@@ -2183,6 +2194,10 @@ class Engine:
                     st.ghost["__axinst_off"] = False
             for k, cl in enumerate(fc.ensures):
                 if getattr(cl, "ghostdef", False):
+                    continue
+                if getattr(cl, "assumed", False):
+                    self.used_assumptions.add(
+                        f"assumed clause of {fc.qualname}: {cl.text[:120]}")
                     continue
                 self.oblige(st, "post", line, self.spec_bool(st, cl),
                             cl.props, label=str(k),
